@@ -49,18 +49,34 @@ class WitnessTU:
                 errs.setdefault(ln, m.group(2))
             else:
                 other.append("line %d: %s | %s" % (ln, m.group(2), self.lines[ln - 1][:120] if ln <= len(self.lines) else ""))
-        # errors reported inside repo headers while instantiating a witness: attribute by the "in instantiation ... <gen>:N" notes
-        blocks = re.split(r"(?m)^(?=\S+:\d+:\d+: (?:fatal )?error:)", err)
-        for b in blocks:
-            m = re.match(r"(\S+):(\d+):\d+: (?:fatal )?error: (.*)", b)
-            if not m or m.group(1) == "<gen>":
-                continue
-            notes = [int(x) for x in re.findall(r"<gen>:(\d+):\d+: note:", b)]
-            hit = [n for n in notes if n in self.cases]
-            if hit:
-                errs.setdefault(hit[-1], "%s:%s: %s" % (m.group(1), m.group(2), m.group(3)))
-            else:
-                other.append("%s:%s: %s" % (m.group(1), m.group(2), m.group(3)))
+        # errors reported inside repo headers while instantiating a witness: attribute them through the instantiation
+        # context (clang: following "note: in instantiation ... <gen>:N"; gcc: preceding "<gen>:N:M:   required from here")
+        lines = err.splitlines()
+        pending_ctx = None
+        idx = 0
+        while idx < len(lines):
+            ln_txt = lines[idx]
+            m = re.match(r"<gen>:(\d+):\d+:\s+required from here", ln_txt)
+            if m and int(m.group(1)) in self.cases:
+                pending_ctx = int(m.group(1))
+            m = re.match(r"(\S+?):(\d+):(?:\d+:)? (?:fatal )?error: (.*)", ln_txt)
+            if m and m.group(1) != "<gen>":
+                hit = pending_ctx
+                j2 = idx + 1
+                while j2 < len(lines) and not re.match(r"\S+?:\d+:(?:\d+:)? (?:fatal )?error: ", lines[j2]):
+                    m2 = re.match(r"<gen>:(\d+):\d+: note:", lines[j2])
+                    if m2 and int(m2.group(1)) in self.cases:
+                        hit = int(m2.group(1))
+                    m3 = re.match(r"<gen>:(\d+):\d+:\s+required from here", lines[j2])
+                    if m3:
+                        break
+                    j2 += 1
+                if hit is not None:
+                    errs.setdefault(hit, "%s:%s: %s" % (m.group(1), m.group(2), m.group(3)))
+                else:
+                    other.append("%s:%s: %s" % (m.group(1), m.group(2), m.group(3)))
+                pending_ctx = None
+            idx += 1
         if other:
             rep.broke("witness TU has errors outside any witness line: " + " || ".join(other[:5]))
         ok = bad = 0
